@@ -247,7 +247,7 @@ var panicLineRe = regexp.MustCompile(`(?m)^(panic: .*|fatal error: .*)$`)
 
 func caseTimeout(line string) time.Duration {
 	if strings.HasPrefix(line, "fzparse") {
-		return 8 * time.Second
+		return 5 * time.Second
 	}
 	return 60 * time.Second
 }
@@ -304,6 +304,8 @@ func execParent(line string) (res h.Result) {
 		sig := "hang-" + op
 		if op == "fzparse" && blowupSelector(line) {
 			sig = "hang-selector-blowup"
+		} else if op == "fzparse" && strings.Contains(string(h.UnHex(strings.Fields(line)[1])), "ancestor") {
+			sig = "hang-xpath-ancestor-axis"
 		}
 		res.Oracle = fmt.Sprintf("%s: no answer within %v; %s", sig, caseTimeout(line), h.OneLine(lastLines(dump, 6)))
 		res.Class = op + "-hang"
